@@ -5,8 +5,10 @@ package filtering
 import (
 	"crypto/sha256"
 	"encoding/hex"
+	"errors"
 	"fmt"
 	"sort"
+	"strconv"
 	"strings"
 	"testing"
 	"time"
@@ -243,4 +245,688 @@ func TestVerifC19(t *testing.T) {
 		}
 		c19vRun(t, out, c19vCase{Host: host, Filtering: rr.Chance(1, 2), Parental: rr.Chance(1, 2), DB: db})
 	}
+
+	c19gAll(t, out)
+}
+
+// ---------------------------------------------------------------------------
+// Round 5: the glue.  Which hosts reach Checker.Check at all, over the whole
+// host space of the property (1..8 labels; ICANN, private-section and
+// default-rule suffixes; names EQUAL to a suffix of either section; single
+// labels; trailing dots, empty labels, the root query; mixed case), for every
+// combination of the per-request switches.  One case = a short history of
+// CheckHost calls through ONE DNSFilter with a real Checker per service, each
+// on its own scripted upstream with its own database, behind a wrapper that
+// records what the glue called it with.
+
+type c19gUpstream struct {
+	suffix string
+	db     []string
+	fail   bool
+	qs     []string
+	failed int
+}
+
+func (u *c19gUpstream) Address() string { return "verif" }
+func (u *c19gUpstream) Close() error    { return nil }
+func (u *c19gUpstream) Exchange(req *dns.Msg) (*dns.Msg, error) {
+	q := req.Question[0].Name
+	u.qs = append(u.qs, q)
+	if u.fail {
+		u.failed++
+		return nil, errors.New("verif: scripted upstream failure")
+	}
+	want := map[string]bool{}
+	for _, l := range strings.Split(strings.TrimSuffix(q, u.suffix), ".") {
+		if len(l) >= 4 {
+			want[strings.ToLower(l[:4])] = true
+		}
+	}
+	resp := (&dns.Msg{}).SetReply(req)
+	txt := &dns.TXT{Hdr: dns.RR_Header{Name: q, Rrtype: dns.TypeTXT, Class: dns.ClassINET}}
+	for _, s := range u.db {
+		if len(s) >= 4 && !want[strings.ToLower(s[:4])] {
+			continue
+		}
+		txt.Txt = append(txt.Txt, s)
+	}
+	resp.Answer = append(resp.Answer, txt)
+	return resp, nil
+}
+
+// c19gChecker records what the glue hands to the real Checker.
+type c19gChecker struct {
+	inner   Checker
+	calls   []string
+	blocked []bool
+	errs    []error
+}
+
+func (c *c19gChecker) Check(host string) (block bool, err error) {
+	c.calls = append(c.calls, host)
+	block, err = c.inner.Check(host)
+	c.blocked, c.errs = append(c.blocked, block), append(c.errs, err)
+	return block, err
+}
+
+type c19gReq struct {
+	Host       string `json:"host"`
+	Protection bool   `json:"protection_enabled"`
+	Filtering  bool   `json:"filtering_enabled"`
+	SB         bool   `json:"safebrowsing_enabled"`
+	PC         bool   `json:"parental_enabled"`
+	// FromConf: the settings are what DNSFilter.Settings() derives from the
+	// configuration (as dnsforward and the check_host handler do) plus
+	// ProtectionEnabled; SB, PC and Filtering are then the configuration's.
+	FromConf bool `json:"settings_from_conf"`
+	FailSB   bool `json:"fail_sb,omitempty"`
+	FailPC   bool `json:"fail_pc,omitempty"`
+}
+
+type c19gCase struct {
+	Note                     string    `json:"note,omitempty"`
+	ConfSB, ConfPC, ConfFilt bool      `json:"-"`
+	DBSB                     []string  `json:"db_safebrowsing"`
+	DBPC                     []string  `json:"db_parental"`
+	ListedSB                 []string  `json:"listed_safebrowsing,omitempty"`
+	ListedPC                 []string  `json:"listed_parental,omitempty"`
+	Reqs                     []c19gReq `json:"requests"`
+}
+
+// c19gB packs a byte string seven bytes to a primitive integer (Run/C19.v ub).
+func c19gB(s string) string {
+	if len(s) == 0 {
+		return "(@nil N)"
+	}
+	var b strings.Builder
+	b.WriteString("(ub ")
+	n := 0
+	for i := 0; i < len(s); i += 7 {
+		j := i + 7
+		if j > len(s) {
+			j = len(s)
+		}
+		var w uint64
+		for k := j - 1; k >= i; k-- {
+			w = w<<8 | uint64(s[k])
+		}
+		w = w<<3 | uint64(j-i)
+		b.WriteString("(IC ")
+		b.WriteString(strconv.FormatUint(w, 10))
+		b.WriteString(" ")
+		n++
+	}
+	b.WriteString("I0")
+	b.WriteString(strings.Repeat(")", n+1))
+	return b.String()
+}
+
+func c19gWellFormed(h string) bool {
+	if h == "" {
+		return false
+	}
+	for _, l := range strings.Split(h, ".") {
+		if l == "" {
+			return false
+		}
+	}
+	return true
+}
+
+func c19gHex(n string) string  { h := sha256.Sum256([]byte(n)); return hex.EncodeToString(h[:]) }
+func c19gPref(n string) string { return c19gHex(n)[:4] }
+
+// c19gSection: how the pinned public-suffix table sees the host.
+func c19gSection(low string) (section string, isSuffix bool) {
+	ps, icann := publicsuffix.PublicSuffix(low)
+	switch {
+	case icann:
+		section = "icann"
+	case strings.Contains(ps, "."):
+		section = "private"
+	default:
+		// A one-label suffix outside the ICANN section: the default rule "*".
+		section = "default-rule"
+	}
+	return section, ps == low
+}
+
+func c19gRun(t *testing.T, out *vfOut, c c19gCase) {
+	const sfxSB, sfxPC = "sb.dns.adguard.com.", "pc.dns.adguard.com."
+	upSB := &c19gUpstream{suffix: sfxSB, db: c.DBSB}
+	upPC := &c19gUpstream{suffix: sfxPC, db: c.DBPC}
+	mk := func(u *c19gUpstream, sfx string) *c19gChecker {
+		return &c19gChecker{inner: hashprefix.New(&hashprefix.Config{Upstream: u, ServiceName: "verif", TXTSuffix: sfx, CacheTime: time.Hour, CacheSize: 0})}
+	}
+	chkSB, chkPC := mk(upSB, sfxSB), mk(upPC, sfxPC)
+	conf := &Config{
+		FilteringEnabled: c.ConfFilt, DataDir: t.TempDir(),
+		SafeBrowsingChecker: chkSB, SafeBrowsingEnabled: c.ConfSB,
+		ParentalControlChecker: chkPC, ParentalEnabled: c.ConfPC,
+	}
+	d, err := New(conf, nil)
+	if err != nil {
+		t.Fatal(err)
+	}
+	defer d.Close()
+	d.SetEnabled(c.ConfFilt)
+
+	held := func(db []string) map[string]bool {
+		m := map[string]bool{}
+		for _, s := range db {
+			if b, derr := hex.DecodeString(s); derr == nil && len(s) == 64 {
+				m[string(b)] = true
+			}
+		}
+		return m
+	}
+	heldSB, heldPC := held(c.DBSB), held(c.DBPC)
+	listedIn := func(m map[string]bool, n string) bool { h := sha256.Sum256([]byte(n)); return m[string(h[:])] }
+
+	classes := map[string]bool{"via-checkhost": true, "glue": true}
+	monOK, monMsg, monKey := true, "", ""
+	bad := func(key, msg string) {
+		if monOK {
+			monOK, monMsg, monKey = false, msg, key
+		}
+	}
+	// The monitor's own account of what each Checker's cache can answer: the
+	// prefixes of every question that was answered (unlimited cache, one hour
+	// of cache time, a constant database).
+	knownSB, knownPC := map[string]bool{}, map[string]bool{}
+	shaNames, psNames := map[string]bool{}, map[string]bool{}
+	var greqs []string
+	nontrivial := false
+
+	for ri := range c.Reqs {
+		rq := &c.Reqs[ri]
+		var setts *Settings
+		if rq.FromConf {
+			setts = d.Settings()
+			setts.ProtectionEnabled = rq.Protection
+			if setts.SafeBrowsingEnabled != c.ConfSB || setts.ParentalEnabled != c.ConfPC || setts.FilteringEnabled != c.ConfFilt {
+				bad("C19/settings-from-conf", fmt.Sprintf("Settings() = %+v for a configuration with safe browsing %v, parental %v, filtering %v", *setts, c.ConfSB, c.ConfPC, c.ConfFilt))
+			}
+			rq.SB, rq.PC, rq.Filtering = setts.SafeBrowsingEnabled, setts.ParentalEnabled, setts.FilteringEnabled
+			classes["glue-settings-from-conf"] = true
+		} else {
+			setts = &Settings{FilteringEnabled: rq.Filtering, ProtectionEnabled: rq.Protection, SafeBrowsingEnabled: rq.SB, ParentalEnabled: rq.PC}
+		}
+		upSB.fail, upPC.fail = rq.FailSB, rq.FailPC
+		nSB, nPC, qSB, qPC, fSB, fPC := len(chkSB.calls), len(chkPC.calls), len(upSB.qs), len(upPC.qs), upSB.failed, upPC.failed
+		res, cerr := d.CheckHost(rq.Host, dns.TypeA, setts)
+		callsSB, callsPC := chkSB.calls[nSB:], chkPC.calls[nPC:]
+		asksSB, asksPC := upSB.qs[qSB:], upPC.qs[qPC:]
+		upFailed := upSB.failed > fSB || upPC.failed > fPC
+
+		reason := 0
+		switch {
+		case cerr != nil:
+		case res.Reason == FilteredSafeBrowsing:
+			reason = 1
+		case res.Reason == FilteredParental:
+			reason = 2
+		case res.Reason != NotFilteredNotFound:
+			reason = 9
+		}
+
+		low := strings.ToLower(rq.Host)
+		wf := c19gWellFormed(low)
+		var enum []string
+		if wf {
+			enum = c19vEnum(low)
+		}
+		sbOn := rq.Host != "" && rq.Protection && rq.SB
+		pcOn := rq.Host != "" && rq.Protection && rq.PC
+
+		// ---- classes
+		if low != rq.Host {
+			classes["via-mixed-case"] = true
+		}
+		switch {
+		case rq.Host == "":
+			classes["glue-host-root-query"] = true
+		case !wf && strings.HasSuffix(low, ".") && c19gWellFormed(strings.TrimSuffix(low, ".")):
+			classes["glue-host-trailing-dot"] = true
+		case !wf:
+			classes["glue-host-empty-label"] = true
+		default:
+			section, isSuffix := c19gSection(low)
+			k := strings.Count(low, ".") + 1
+			if k > 8 {
+				k = 8
+			}
+			classes[fmt.Sprintf("glue-labels-%d-%s", k, section)] = true
+			if isSuffix {
+				classes["glue-host-is-"+section+"-suffix"] = true
+				if k == 1 {
+					classes["glue-host-single-label-"+section] = true
+				}
+			}
+			if len(enum) == 0 {
+				classes["glue-nothing-enumerated"] = true
+				if !isSuffix {
+					classes["glue-nothing-enumerated-host-not-a-suffix"] = true
+				}
+			}
+			own, parent := false, false
+			for i, n := range enum {
+				if listedIn(heldSB, n) || listedIn(heldPC, n) {
+					if i == 0 && n == low {
+						own = true
+					} else {
+						parent = true
+					}
+				}
+			}
+			switch {
+			case own:
+				classes["glue-own-name-listed"] = true
+			case parent:
+				classes["glue-parent-listed"] = true
+			case len(c.DBSB)+len(c.DBPC) > 0:
+				classes["glue-only-unenumerated-names-listed"] = true
+			default:
+				classes["glue-nothing-listed"] = true
+			}
+			if isSuffix && section != "icann" && own && (reason == 1 || reason == 2) {
+				classes["glue-non-icann-suffix-itself-blocked"] = true
+			}
+		}
+		switch {
+		case !rq.Protection:
+			classes["glue-protection-off"] = true
+		case rq.SB && rq.PC:
+			classes["glue-both-services-on"] = true
+		case rq.SB:
+			classes["via-safebrowsing"] = true
+		case rq.PC:
+			classes["via-parental"] = true
+		default:
+			classes["glue-both-services-off"] = true
+		}
+		if rq.Filtering {
+			classes["via-filtering-on"] = true
+		} else {
+			classes["via-filtering-off"] = true
+		}
+		if len(callsSB) > 0 && len(asksSB) == 0 || len(callsPC) > 0 && len(asksPC) == 0 {
+			classes["glue-checker-called-nothing-asked"] = true
+		}
+		if reason == 1 && pcOn {
+			classes["glue-safebrowsing-blocks-parental-not-asked"] = true
+		}
+		if reason == 1 || reason == 2 {
+			classes["via-blocked"] = true
+			nontrivial = true
+		}
+		if cerr != nil {
+			classes["glue-upstream-error"] = true
+		}
+		if ri > 0 {
+			classes["glue-later-request-of-history"] = true
+		}
+		if low != rq.Host || len(callsSB)+len(callsPC) > 0 {
+			nontrivial = true
+		}
+
+		// ---- monitor
+		who := fmt.Sprintf("request %d: CheckHost(%q) with protection %v, safe browsing %v, parental %v, filtering %v", ri+1, rq.Host, rq.Protection, rq.SB, rq.PC, rq.Filtering)
+		type svcT struct {
+			name   string
+			on     bool
+			held   map[string]bool
+			known  map[string]bool
+			calls  []string
+			asks   []string
+			suffix string
+			code   int
+			fail   bool
+		}
+		svcs := []*svcT{
+			{"safe browsing", sbOn, heldSB, knownSB, callsSB, asksSB, sfxSB, 1, rq.FailSB},
+			{"parental control", pcOn, heldPC, knownPC, callsPC, asksPC, sfxPC, 2, rq.FailPC},
+		}
+		// the verdict the property asks for
+		want, wantName := 0, ""
+		for _, sv := range svcs {
+			if want != 0 || !sv.on {
+				continue
+			}
+			for _, n := range enum {
+				if listedIn(sv.held, n) {
+					want, wantName = sv.code, n
+					break
+				}
+			}
+		}
+		switch {
+		case reason == 9:
+			bad("C19/caller-verdict", fmt.Sprintf("%s: reason %v", who, res.Reason))
+		case cerr != nil && !upFailed:
+			bad("C19/checkhost-error", fmt.Sprintf("%s: %v although no upstream failed", who, cerr))
+		case cerr != nil:
+		case wf && want != 0 && reason == 0:
+			sv := svcs[want-1]
+			how := "the checker was called"
+			if len(sv.calls) == 0 {
+				how = "the checker was never called"
+			}
+			bad("C19/listed-name-not-blocked", fmt.Sprintf("%s: not blocked although the %s service lists %q, one of the names %v enumerated for the host; %s, questions sent: %q", who, sv.name, wantName, enum, how, sv.asks))
+		case wf && reason != want:
+			bad("C19/caller-verdict", fmt.Sprintf("%s: reason code %d (1 safe browsing, 2 parental, 0 none), the databases and switches give %d (enumerated names %v)", who, reason, want, enum))
+		case !wf && reason != 0:
+			// names with empty labels: blocked only by a listed dot-aligned suffix
+			sv, ok := svcs[reason-1], false
+			for _, n := range c19vSubnames(low) {
+				ok = ok || listedIn(sv.held, n)
+			}
+			if !ok || !sv.on {
+				bad("C19/caller-verdict", fmt.Sprintf("%s: blocked by %s although it is off or lists no suffix of the name", who, sv.name))
+			}
+		}
+		for _, sv := range svcs {
+			switch {
+			case len(sv.calls) > 1 || len(sv.asks) > 1:
+				bad("C19/caller-question", fmt.Sprintf("%s: %s checker called %d times, %d questions", who, sv.name, len(sv.calls), len(sv.asks)))
+			case len(sv.calls) == 1 && !sv.on:
+				bad("C19/glue-asked-although-disabled", fmt.Sprintf("%s: the %s checker was called with %q", who, sv.name, sv.calls[0]))
+			case len(sv.calls) == 1 && sv.calls[0] != low:
+				bad("C19/glue-checker-argument", fmt.Sprintf("%s: the %s checker was called with %q, not with the lower-case name", who, sv.name, sv.calls[0]))
+			case len(sv.calls) == 0 && len(sv.asks) > 0:
+				bad("C19/caller-question", fmt.Sprintf("%s: %s question %q without a call of the checker", who, sv.name, sv.asks))
+			}
+			if len(sv.calls) != 1 {
+				continue
+			}
+			// privacy clause: the question carries exactly the prefixes of the
+			// enumerated names the cache cannot answer
+			got := ""
+			if len(sv.asks) == 1 {
+				got = sv.asks[0]
+			}
+			if wf {
+				fromCache := false
+				var unknown []string
+				for _, n := range enum {
+					p := c19gPref(n)
+					if sv.known[p] && listedIn(sv.held, n) {
+						fromCache = true
+					}
+					if !sv.known[p] {
+						unknown = append(unknown, p)
+					}
+				}
+				wantQ := ""
+				if !fromCache && len(unknown) > 0 {
+					wantQ = strings.Join(unknown, ".") + "." + sv.suffix
+				}
+				if got != wantQ {
+					bad("C19/caller-question", fmt.Sprintf("%s: %s question %q, want %q (prefixes of the enumerated names %v without a cache entry)", who, sv.name, got, wantQ, enum))
+				}
+				if got != "" && !sv.fail {
+					for _, p := range unknown {
+						sv.known[p] = true
+					}
+				}
+				if ri > 0 && got == "" && len(enum) > 0 {
+					classes["glue-answered-from-cache"] = true
+				}
+			} else if got != "" {
+				allowed := map[string]bool{}
+				for _, n := range c19vSubnames(low) {
+					allowed[c19gPref(n)] = true
+				}
+				for _, l := range strings.Split(strings.TrimSuffix(got, "."+sv.suffix), ".") {
+					if !allowed[l] {
+						bad("C19/caller-question", fmt.Sprintf("%s: %s question %q has the label %q, no prefix of a dot-aligned suffix of the name", who, sv.name, got, l))
+					}
+					if !sv.fail {
+						sv.known[l] = true
+					}
+				}
+			}
+		}
+
+		// ---- the request for the model
+		for _, n := range c19vSubnames(low) {
+			shaNames[n] = true
+		}
+		psNames[low] = true
+		seen := func(calls, asks []string) string {
+			if len(calls) == 0 {
+				return vfOpt("list N * option (list N)", false, "")
+			}
+			q := vfOpt("list N", len(asks) > 0, "")
+			if len(asks) > 0 {
+				q = vfOpt("list N", true, c19gB(asks[0]))
+			}
+			return vfOpt("list N * option (list N)", true, vfPair(c19gB(calls[0]), q))
+		}
+		greqs = append(greqs, vfApp("GReq", vfBool(rq.Protection), vfBool(rq.Filtering), vfBool(rq.SB), vfBool(rq.PC),
+			vfBool(rq.FailSB), vfBool(rq.FailPC), c19gB(rq.Host), seen(callsSB, asksSB), seen(callsPC, asksPC),
+			vfZ(int64(reason)), vfBool(cerr != nil)))
+	}
+
+	// Tables: sha256 of every dot-aligned suffix of every lower-case host,
+	// PublicSuffix (suffix, section flag) of every lower-case host: a name
+	// that is a private-section suffix is in it with the flag false.
+	var shaT, psT, dbSB, dbPC []string
+	names := make([]string, 0, len(shaNames))
+	for n := range shaNames {
+		names = append(names, n)
+	}
+	sort.Strings(names)
+	for _, n := range names {
+		h := sha256.Sum256([]byte(n))
+		shaT = append(shaT, vfPair(c19gB(n), c19gB(string(h[:]))))
+	}
+	names = names[:0]
+	for n := range psNames {
+		names = append(names, n)
+	}
+	sort.Strings(names)
+	for _, n := range names {
+		ps, icann := publicsuffix.PublicSuffix(n)
+		psT = append(psT, vfPair(c19gB(n), vfPair(c19gB(ps), vfBool(icann))))
+	}
+	for _, s := range c.DBSB {
+		dbSB = append(dbSB, c19gB(s))
+	}
+	for _, s := range c.DBPC {
+		dbPC = append(dbPC, c19gB(s))
+	}
+	var cls []string
+	for k := range classes {
+		cls = append(cls, k)
+	}
+	sort.Strings(cls)
+	out.Emit(vfCase{
+		Coq: vfApp("CaseGlue", c19gB(sfxSB), c19gB(sfxPC), vfList("list N * list N", shaT),
+			vfList("list N * (list N * bool)", psT), vfList("list N", dbSB), vfList("list N", dbPC), vfList("greq", greqs)),
+		Nontrivial: nontrivial,
+		Classes:    cls,
+		MonitorOK:  monOK,
+		MonitorMsg: monMsg,
+		FindingKey: monKey,
+		Desc:       c,
+	})
+}
+
+// c19gPools: suffixes by the section the pinned table puts them in; checked
+// against the table at run time (a suffix in the wrong pool stops the run).
+var c19gPools = map[string][]string{
+	"icann":        {"com", "org", "io", "co.uk", "foo.ck", "pvt.k12.ma.us"},
+	"private":      {"github.io", "blogspot.com", "s3.amazonaws.com", "dyndns.org", "cloudfront.net"},
+	"default-rule": {"intranet", "localhost", "lan", "corp"},
+}
+
+func c19gAll(t *testing.T, out *vfOut) {
+	for sec, pool := range c19gPools {
+		for _, s := range pool {
+			got, isSuffix := c19gSection(s)
+			if got != sec || !isSuffix {
+				t.Fatalf("C19 glue harness: %q is expected to be a suffix of section %s; the pinned table says section %s, suffix itself: %v", s, sec, got, isSuffix)
+			}
+		}
+	}
+	on := func(host string) c19gReq { return c19gReq{Host: host, Protection: true, Filtering: true, SB: true} }
+	hx := c19gHex
+
+	// ---- Prelude 1: names EQUAL to a suffix of either section, single
+	// labels, odd names; the name itself listed; each service alone and both.
+	for _, host := range []string{
+		"github.io", "GitHub.IO", "blogspot.com", "s3.amazonaws.com", "dyndns.org", "cloudfront.net",
+		"intranet", "LocalHost", "lan",
+		"com", "io", "co.uk", "foo.ck", "pvt.k12.ma.us", "ck",
+		"www.ck", "x.foo.ck", "evil.pvt.k12.ma.us", "a.evil.pvt.k12.ma.us", "x.github.io", "a.b.c.d.github.io",
+		"github.io.", "example.com.", "com.", "a..com", ".com", ".", "",
+	} {
+		low := strings.ToLower(host)
+		for mode := 0; mode < 4; mode++ {
+			c := c19gCase{Note: "suffix itself / single label / odd name, own name listed", DBSB: []string{hx(low)}, DBPC: []string{hx(low)}, ListedSB: []string{low}, ListedPC: []string{low}}
+			rq := c19gReq{Host: host, Protection: true, Filtering: mode%2 == 0}
+			switch mode {
+			case 0:
+				rq.SB = true
+			case 1:
+				rq.PC = true
+			case 2:
+				rq.SB, rq.PC = true, true
+				c.DBSB, c.ListedSB = nil, nil
+			case 3:
+				c.ConfSB, c.ConfPC, c.ConfFilt = true, false, true
+				rq.FromConf = true
+			}
+			// asked twice: the second answer comes from the cache
+			c.Reqs = []c19gReq{rq, rq}
+			c19gRun(t, out, c)
+		}
+	}
+
+	// ---- Prelude 2: every number of labels 1..8 on every kind of suffix:
+	// own name listed, a parent listed, only names outside the enumeration
+	// listed (a child, the ICANN suffix, the name beyond the four-label cut).
+	pre := []string{"a", "b", "c", "d", "e", "f", "g"}
+	for _, sec := range []string{"icann", "private", "default-rule"} {
+		for _, suf := range c19gPools[sec] {
+			m := strings.Count(suf, ".") + 1
+			for k := m; k <= 8; k++ {
+				host := suf
+				if k > m {
+					host = strings.Join(pre[:k-m], ".") + "." + suf
+				}
+				enum := c19vEnum(host)
+				// never enumerated: a child; the ICANN suffix itself; the whole
+				// name when it is longer than the four-label cut
+				outside := []string{"zz." + host}
+				if sec == "icann" {
+					outside = append(outside, suf)
+				}
+				if k > 4 {
+					outside = append(outside, host)
+				}
+				cs := []c19gCase{{Note: "only names outside the enumeration listed", DBSB: c19gHexes(outside), ListedSB: outside, Reqs: []c19gReq{on(host)}}}
+				if len(enum) > 0 {
+					cs = append(cs,
+						c19gCase{Note: "first enumerated name listed", DBSB: []string{hx(enum[0])}, ListedSB: enum[:1], Reqs: []c19gReq{on(host)}},
+						c19gCase{Note: "last enumerated name listed, parental", DBPC: []string{hx(enum[len(enum)-1])}, ListedPC: enum[len(enum)-1:],
+							Reqs: []c19gReq{{Host: host, Protection: true, PC: true}}})
+				}
+				for _, c := range cs {
+					c19gRun(t, out, c)
+				}
+			}
+		}
+	}
+
+	// ---- Prelude 3: the switches, for one listed ordinary name and one
+	// listed private suffix: all sixteen settings; safe browsing blocks before
+	// parental is asked; an upstream failure; the failure of one service does
+	// not reach the other.
+	for _, host := range []string{"www.evil.example.org", "github.io"} {
+		db := []string{hx(host)}
+		for bits := 0; bits < 16; bits++ {
+			c19gRun(t, out, c19gCase{Note: "all settings", DBSB: db, DBPC: db, ListedSB: []string{host}, ListedPC: []string{host},
+				Reqs: []c19gReq{{Host: host, Protection: bits&1 != 0, Filtering: bits&2 != 0, SB: bits&4 != 0, PC: bits&8 != 0}}})
+		}
+		both := c19gReq{Host: host, Protection: true, SB: true, PC: true}
+		failSB, failPC := both, both
+		failSB.FailSB, failPC.FailPC = true, true
+		c19gRun(t, out, c19gCase{Note: "safe browsing fails, then answers", DBSB: db, DBPC: db, ListedSB: []string{host}, ListedPC: []string{host}, Reqs: []c19gReq{failSB, both, failSB}})
+		c19gRun(t, out, c19gCase{Note: "parental fails, then answers", DBPC: db, ListedPC: []string{host}, Reqs: []c19gReq{failPC, both, failPC, both}})
+		c19gRun(t, out, c19gCase{Note: "parental fails behind a blocking safe browsing", DBSB: db, DBPC: db, ListedSB: []string{host}, ListedPC: []string{host}, Reqs: []c19gReq{failPC, failPC}})
+	}
+
+	// ---- Random histories.
+	r := vfNewRand(out.Seed ^ 0x19c5)
+	labels := []string{"www", "mail", "evil", "good", "shop", "a", "b", "cdn", "x1"}
+	secs := []string{"icann", "private", "default-rule"}
+	n := out.Scale(260, 5000)
+	for i := 0; i < n; i++ {
+		rr := r.Fork(uint64(i))
+		c := c19gCase{ConfSB: rr.Bool(), ConfPC: rr.Bool(), ConfFilt: rr.Bool()}
+		suf := vfPick(rr, c19gPools[vfPick(rr, secs)])
+		m := strings.Count(suf, ".") + 1
+		base := suf
+		// 1 in 3: the suffix itself (a single label for the default rule)
+		if !rr.Chance(1, 3) {
+			var ls []string
+			for k := int(rr.Range(1, int64(9-m))); k > 0; k-- {
+				ls = append(ls, vfPick(rr, labels))
+			}
+			base = strings.Join(ls, ".") + "." + suf
+		}
+		// the database: each dot-aligned suffix of the base name, a child and
+		// a mixed-case spelling, in either service
+		cands := append(c19vSubnames(base), "zz."+base)
+		for _, s := range cands {
+			if rr.Chance(1, 4) {
+				c.DBSB, c.ListedSB = append(c.DBSB, hx(s)), append(c.ListedSB, s)
+			}
+			if rr.Chance(1, 4) {
+				c.DBPC, c.ListedPC = append(c.DBPC, hx(s)), append(c.ListedPC, s)
+			}
+			if rr.Chance(1, 10) {
+				c.DBSB = append(c.DBSB, hx(c19vSpell(rr, s)))
+			}
+		}
+		if rr.Chance(1, 8) {
+			c.DBSB = append(c.DBSB, "zz"+hx(base)[2:], hx(base)[:40])
+		}
+		for k := int(rr.Range(1, 3)); k > 0; k-- {
+			host := base
+			switch rr.Intn(8) {
+			case 0: // a parent of the base name
+				subs := c19vSubnames(base)
+				host = vfPick(rr, subs)
+			case 1: // a child
+				host = vfPick(rr, labels) + "." + base
+			case 2: // trailing dot
+				host = base + "."
+			}
+			if rr.Chance(2, 3) {
+				host = c19vSpell(rr, host)
+			}
+			rq := c19gReq{Host: host, Protection: !rr.Chance(1, 6), Filtering: rr.Bool(), SB: rr.Chance(2, 3), PC: rr.Chance(1, 2)}
+			if rr.Chance(1, 4) {
+				rq.FromConf = true
+			}
+			if rr.Chance(1, 12) {
+				rq.FailSB = true
+			}
+			if rr.Chance(1, 12) {
+				rq.FailPC = true
+			}
+			c.Reqs = append(c.Reqs, rq)
+		}
+		c19gRun(t, out, c)
+	}
+}
+
+func c19gHexes(names []string) (db []string) {
+	for _, n := range names {
+		db = append(db, c19gHex(n))
+	}
+	return db
 }
